@@ -63,6 +63,12 @@ PRIMARY = [
      [('TypeNotAllowedInExtern', 2, ': &bool', 'location_of_type')]),
     ('extern fn g(\n\tq: &&u128\n);\n', [('TypeNotAllowedInExtern', 2, ': &&u128', 'location_of_type')]),
     ('extern fn h(\n\tr: bool\n) -> &u128;\n', [('TypeNotAllowedInExtern', 2, ': bool', 'location_of_type')]),
+    # the SECONDARY location of E358 ("declaration marked external here") is the declaration: its keyword or the modifier before it, on that
+    # line - also when the declaration is not the first of the file and follows a body, a constant or another head
+    ('fn first()\n{\n}\n\nextern fn g(\n\tr: bool\n);\n', [('TypeNotAllowedInExtern', 5, 'extern', 'location_of_declaration')]),
+    ('const A: i32 = 1;\n\n\nextern fn g(r: bool);\n', [('TypeNotAllowedInExtern', 4, 'extern', 'location_of_declaration')]),
+    ('extern fn ok(x: i32);\n\npub\nextern fn g(r: bool);\n', [('TypeNotAllowedInExtern', (3, 4), ('pub', 'extern'), 'location_of_declaration')]),
+    ('struct S\n{\n\tx: i32,\n}\n\nextern fn g() -> bool;\n', [('TypeNotAllowedInExtern', 6, 'extern', 'location_of_declaration')]),
 ]
 
 
@@ -84,7 +90,10 @@ def check_primary(src, expected, r):
         if not m:
             return 'the diagnostic %s has no primary location' % variant
         a, b, ln, lo = (int(x) for x in m.groups())
-        if ln != line or not src[a:].startswith(text):
+        lines = line if isinstance(line, tuple) else (line,)
+        texts = text if isinstance(text, tuple) else (text,)
+        if not any(ln == l_ and src[a:].startswith(t_) for l_, t_ in zip(lines, texts)):
+            line, text = lines[0], texts[0]
             return 'the primary location of %s is line %d, text %r; the offending construct %r stands on line %d' % (variant, ln, src[a:b][:30], text, line)
     return None
 
